@@ -425,7 +425,21 @@ def shard(ctx, shard_no, nshards, n):
         ctx.case(('event', text, inp.get('nest', 0)), any(n[0] == 'var' for n in mast.walk(inp['ev'])), 'random:event:' + inp['ev'][0] + (':renested' if inp.get('nest') and inp['ev'][0] == 'disj' else ''), sample=text)
 
     with ctx.timed('random-event'):
-        core.run_hypothesis(ctx, 'event', from_tape(lambda ch: {'ev': c02.gen_event(ch, c02.TOPICS), 'nest': ch.pick([0, 1, 2, 3, 5, 11])}, 128), body_e, n // 2)
+        core.run_hypothesis(ctx, 'event', from_tape(gen_event_case, 192), body_e, n // 2)
+
+
+def gen_event_case(ch):
+    from hplverif.checks import c02
+
+    if ch.int(0, 2) == 0:
+        # an aliased event whose predicate draws quantifier variables, free references and the own alias from one pool of
+        # names (shadowing, re-binding below an outer quantifier, the own alias free next to a binder of the same name)
+        m = c02.gen_shadow_case(ch)['m']
+        ev = m[3][3]
+        if ch.bool() and ev[2] is None:
+            ev = ('ev', ev[1], ch.pick(c02.SHADOW_NAMES), ev[3])
+        return {'ev': ev, 'nest': 0}
+    return {'ev': c02.gen_event(ch, c02.TOPICS), 'nest': ch.pick([0, 1, 2, 3, 5, 11])}
 
 
 def run(ctx):
